@@ -28,6 +28,9 @@ package main
 //          engc=<0|1> sup=<pool results that were suppressed>
 //          pK.main=<..> pK.aw=<trace> pK.guns=<created> pK.closes=<sorted Close counts of the created guns>
 //          pK.errs=<component errors the mocks of pool K actually returned, sorted>
+//          [cli=<what awaitPandoraTermination did>] and per real-gun pool pK.gcl / pK.icl / pK.srvopen (real.go)
+//   further input tokens: cancel=at:<point>, hold=…, sig=… (sched.go), cli=run|int|term (the run goes through
+//   cli.runEngine + cli.awaitPandoraTermination), pool tokens rg:<registered gun> and su:<startup schedule> (real.go)
 //   canc=1: the planned cancel fired before Engine.Run returned. lat: time from that cancel to the return of
 //   Engine.Run (fast < 500 ms, slow > 1500 ms; a "slow:" component ignores its context for 2 s).
 
@@ -57,7 +60,9 @@ import (
 	"github.com/yandex/pandora/core/schedule"
 	"github.com/yandex/pandora/core/warmup"
 	"github.com/yandex/pandora/lib/monitoring"
+	"github.com/yandex/pandora/lib/verifhook"
 	"go.uber.org/zap"
+	"go.uber.org/zap/zapcore"
 	"go.uber.org/zap/zaptest/observer"
 )
 
@@ -67,6 +72,7 @@ const (
 	runTimeout  = 8 * time.Second
 	latFast     = 500 * time.Millisecond
 	latSlow     = 1500 * time.Millisecond
+	sigFallback = 120 * time.Millisecond
 )
 
 // ---------------------------------------------------------------- plan
@@ -89,14 +95,38 @@ type poolSpec struct {
 	panicShot         int // 0 none
 	slow              string
 	ek                string // "" | "dl"
+	rg                string // "" | name of a registered gun factory (real.go)
+	su                string // "" (once) | step | inf
+	suMs              int
 }
 
 type plan struct {
 	pools      []poolSpec
-	cancel     string // none|pre|warm|bind|shot|drain|after
+	cancel     string // none|pre|warm|bind|shot|drain|after|at
 	cancelK    int
 	cancelPool int
+	cancelAt   *pointRef
+	holds      []holdRule
+	cli        string // "" | run | int | term
+	sigAt      *pointRef
 	rep        int
+}
+
+// needsInstr: the case refers to points inside the engine or to cli/cli.go, which only the instrumented worker has
+func (pl *plan) needsInstr() bool {
+	eng := func(r pointRef) bool { return !strings.HasPrefix(r.name, "m.") }
+	if pl.cli != "" {
+		return true
+	}
+	if pl.cancelAt != nil && eng(*pl.cancelAt) {
+		return true
+	}
+	for _, h := range pl.holds {
+		if eng(h.a) || eng(h.b) {
+			return true
+		}
+	}
+	return false
 }
 
 func parsePosRet(s string) (posRet, error) {
@@ -158,6 +188,29 @@ func parsePool(s string) (poolSpec, error) {
 		case "slow":
 			if v != "-" {
 				ps.slow = v
+			}
+		case "rg":
+			switch v {
+			case "-":
+			case "http", "http2", "connect", "hs", "h2s":
+				ps.rg = v
+			default:
+				return ps, fmt.Errorf("bad rg %q", v)
+			}
+		case "su":
+			switch {
+			case v == "once" || v == "-":
+			case strings.HasPrefix(v, "step"):
+				ps.su = "step"
+				ps.suMs, err = strconv.Atoi(v[4:])
+			case strings.HasPrefix(v, "inf"):
+				ps.su = "inf"
+				ps.suMs, err = strconv.Atoi(v[3:])
+			default:
+				return ps, fmt.Errorf("bad su %q", v)
+			}
+			if err == nil && (ps.suMs < 0 || ps.suMs > 1000) {
+				return ps, fmt.Errorf("bad su %q", v)
 			}
 		case "ek":
 			switch v {
@@ -241,12 +294,37 @@ func parsePlan(input string) (*plan, error) {
 		}
 		c = "shot"
 	}
+	if strings.HasPrefix(c, "at:") {
+		r, err := parsePointRef(c[3:])
+		if err != nil {
+			return nil, err
+		}
+		pl.cancelAt = &r
+		c = "at"
+	}
 	switch c {
-	case "none", "pre", "warm", "bind", "shot", "drain", "after":
+	case "none", "pre", "warm", "bind", "shot", "drain", "after", "at":
 	default:
 		return nil, fmt.Errorf("bad cancel %q", c)
 	}
 	pl.cancel = c
+	if pl.holds, err = parseHolds(kv["hold"]); err != nil {
+		return nil, err
+	}
+	switch kv["cli"] {
+	case "", "-":
+	case "run", "int", "term":
+		pl.cli = kv["cli"]
+	default:
+		return nil, fmt.Errorf("bad cli %q", kv["cli"])
+	}
+	if sg := kv["sig"]; sg != "" && sg != "-" {
+		r, err := parsePointRef(sg)
+		if err != nil {
+			return nil, err
+		}
+		pl.sigAt = &r
+	}
 	return pl, nil
 }
 
@@ -259,6 +337,7 @@ type caseRt struct {
 	cancelAt   atomic.Int64 // unix nanos of the harness cancel, 0 = none
 	jit        *rand.Rand
 	jitMu      sync.Mutex
+	hk         *hookRt
 }
 
 func (c *caseRt) doCancel() {
@@ -309,6 +388,9 @@ type poolRt struct {
 	mu   sync.Mutex
 	guns []*gunBase
 	errs map[string]bool // component errors the mocks of this pool have actually returned (or panicked with)
+
+	realNew  func() (core.Gun, error) // rg pools
+	gcl, icl bool
 }
 
 // verr makes the error a mock component returns and records that it did
@@ -337,6 +419,7 @@ func (p *poolRt) verr(comp string) error {
 }
 
 func (p *poolRt) retOf(ctx context.Context, ret, comp string) error {
+	p.c.hk.at("m." + comp + ".ret")
 	switch ret {
 	case "err":
 		return p.verr(comp)
@@ -379,7 +462,7 @@ func (m provMock) Run(ctx context.Context, _ core.ProviderDeps) error {
 			return p.retOf(ctx, s.ret, "prov")
 		}
 		select {
-		case p.ammoCh <- i:
+		case p.ammoCh <- p.mkAmmo(i):
 		case <-ctx.Done():
 			close(p.ammoCh)
 			p.slowIf("prov")
@@ -447,9 +530,11 @@ type gunBase struct {
 	aggr   core.Aggregator
 	closes atomic.Int64
 	ctx    context.Context
+	inner  core.Gun // rg pools: the gun the registered factory made
 }
 
 func (g *gunBase) Bind(aggr core.Aggregator, deps core.GunDeps) error {
+	g.p.c.hk.at("m.bind")
 	k := int(g.p.bindCalls.Add(1))
 	g.aggr = aggr
 	g.ctx = deps.Ctx
@@ -459,10 +544,14 @@ func (g *gunBase) Bind(aggr core.Aggregator, deps core.GunDeps) error {
 	if k == g.p.spec.failBind {
 		return g.p.verr("bind")
 	}
+	if g.inner != nil {
+		return g.inner.Bind(aggr, deps)
+	}
 	return nil
 }
 
-func (g *gunBase) Shoot(core.Ammo) {
+func (g *gunBase) Shoot(ammo core.Ammo) {
+	g.p.c.hk.at("m.shot")
 	k := int(g.p.shotCalls.Add(1))
 	g.p.c.hook(g.p.idx, "shot", k)
 	if g.p.spec.slow == "shot" && g.p.c.pl.cancel == "shot" && k == g.p.c.pl.cancelK {
@@ -470,6 +559,10 @@ func (g *gunBase) Shoot(core.Ammo) {
 	}
 	if k == g.p.spec.panicShot {
 		panic(g.p.verr("panic").Error())
+	}
+	if g.inner != nil {
+		g.inner.Shoot(ammo)
+		return
 	}
 	g.aggr.Report(struct{}{})
 	if g.p.spec.slow == "block" {
@@ -480,11 +573,23 @@ func (g *gunBase) Shoot(core.Ammo) {
 	}
 }
 
-func (g *gunBase) doClose() error { g.closes.Add(1); return nil }
+func (g *gunBase) doClose() error {
+	g.p.c.hk.at("m.close")
+	g.closes.Add(1)
+	if c, ok := g.inner.(io.Closer); ok {
+		return c.Close()
+	}
+	return nil
+}
+
 func (g *gunBase) doWarm(o *warmup.Options) (interface{}, error) {
+	g.p.c.hk.at("m.warm")
 	g.p.c.hook(g.p.idx, "warm", 0)
 	if g.p.spec.failWarm {
 		return nil, g.p.verr("warmup")
+	}
+	if w, ok := g.inner.(warmup.WarmedUp); ok {
+		return w.WarmUp(o)
 	}
 	return "shared", nil
 }
@@ -503,26 +608,60 @@ func (g gunCW) Close() error                                  { return g.doClose
 func (g gunCW) WarmUp(o *warmup.Options) (interface{}, error) { return g.doWarm(o) }
 
 func (p *poolRt) newGun() (core.Gun, error) {
+	p.c.hk.at("m.newgun")
 	n := int(p.gunCalls.Add(1)) - 1
 	if n == p.spec.failNewGun {
 		return nil, p.verr("newgun")
 	}
 	g := &gunBase{p: p, n: n}
+	closable, warm := p.spec.closable, p.spec.warm
+	if p.realNew != nil {
+		// the decorator shows the engine exactly the optional interfaces of the gun the registered factory made
+		inner, err := p.realNew()
+		if err != nil || inner == nil {
+			return nil, pkgerrors.WithMessage(err, "real gun factory")
+		}
+		g.inner = inner
+		_, closable = inner.(io.Closer)
+		_, warm = inner.(warmup.WarmedUp)
+		p.mu.Lock()
+		p.gcl = closable
+		p.icl = innerCloser(inner)
+		p.mu.Unlock()
+	}
 	p.mu.Lock()
 	p.guns = append(p.guns, g)
 	p.mu.Unlock()
 	switch {
-	case p.spec.closable && p.spec.warm:
+	case closable && warm:
 		return gunCW{g}, nil
-	case p.spec.closable:
+	case closable:
 		return gunC{g}, nil
-	case p.spec.warm:
+	case warm:
 		return gunW{g}, nil
 	}
 	return g, nil
 }
 
+func (p *poolRt) mkAmmo(i int) core.Ammo {
+	if p.spec.rg != "" {
+		return realAmmo(p.spec.rg, i)
+	}
+	return i
+}
+
+func (p *poolRt) startup() core.Schedule {
+	switch p.spec.su {
+	case "step":
+		return &stepSched{n: p.spec.inst, d: time.Duration(p.spec.suMs) * time.Millisecond}
+	case "inf":
+		return &stepSched{n: -1, d: time.Duration(p.spec.suMs) * time.Millisecond}
+	}
+	return schedule.NewOnce(int64(p.spec.inst))
+}
+
 func (p *poolRt) newSched() (core.Schedule, error) {
+	p.c.hk.at("m.sched")
 	k := int(p.schedCall.Add(1))
 	if k == p.spec.failSched {
 		return nil, p.verr("sched")
@@ -661,18 +800,44 @@ func runCase(input string) string {
 	runMu.Lock()
 	defer runMu.Unlock()
 
+	// goroutines that live as long as the process must exist before the baseline is taken: the target server of real
+	// guns, the runtime's signal loop
+	for _, ps := range pl.pools {
+		if ps.rg != "" {
+			if _, e := realServer(); e != "" {
+				return "NOREAL " + e
+			}
+		}
+	}
+	if pl.cli != "" {
+		signalWarm()
+	}
 	baseline := settleGoroutines(-1, 200*time.Millisecond)
 
+	if pl.cli != "" && !cliAvailable() {
+		return "NOINSTR cli cases need the instrumented worker"
+	}
 	core_, logs := observer.New(zap.DebugLevel)
-	log := zap.New(core_)
 	ctx, cancel := context.WithCancel(context.Background())
 	defer cancel()
 	c := &caseRt{pl: pl, cancel: cancel, jit: rand.New(rand.NewSource(int64(pl.rep)*7919 + 17))}
+	c.hk = &hookRt{holds: pl.holds, cancel: pl.cancelAt, onCan: c.doCancel}
+	curHook.Store(c.hk)
+	defer curHook.Store(nil)
 
 	var rts []*poolRt
 	conf := engine.Config{}
+	anyReal := false
 	for i, ps := range pl.pools {
 		p := &poolRt{c: c, idx: i, spec: ps, ammoCh: make(chan core.Ammo), aggTrig: make(chan struct{})}
+		if ps.rg != "" {
+			f, err := realFactory(ps.rg)
+			if err != nil {
+				return "NOREAL " + sanitize(err.Error())
+			}
+			p.realNew = f
+			anyReal = true
+		}
 		rts = append(rts, p)
 		conf.Pools = append(conf.Pools, engine.InstancePoolConfig{
 			ID:              fmt.Sprintf("p%d", i),
@@ -681,34 +846,108 @@ func runCase(input string) string {
 			NewGun:          p.newGun,
 			RPSPerInstance:  ps.per,
 			NewRPSSchedule:  p.newSched,
-			StartupSchedule: schedule.NewOnce(int64(ps.inst)),
+			StartupSchedule: p.startup(),
 		})
+	}
+	if anyReal {
+		realSettle(300 * time.Millisecond) // leftovers of an earlier case
 	}
 	m := engine.Metrics{
 		Request: &monitoring.Counter{}, Response: &monitoring.Counter{},
 		InstanceStart: &monitoring.Counter{}, InstanceFinish: &monitoring.Counter{},
 	}
-	e := engine.New(log, m, conf)
+	cs := &cliState{}
+	log := zap.New(core_)
+	var e *engine.Engine
+	if pl.cli != "" {
+		log = zap.New(core_, zap.WithFatalHook(cliFatalHook{cs: cs, eng: func() *engine.Engine { return e }}),
+			zap.Hooks(func(en zapcore.Entry) error {
+				// "SIGINT received. Graceful shutdown." / "SIGTERM received. Trying to stop gracefully."
+				if en.Level == zapcore.InfoLevel && strings.HasPrefix(en.Message, "SIG") {
+					cs.add("rcv")
+				}
+				return nil
+			}))
+	}
+	e = engine.New(log, m, conf)
 
 	if pl.cancel == "pre" {
 		c.doCancel()
 	}
 	resCh := make(chan error, 1)
 	var retAt atomic.Int64
-	go func() {
-		r := e.Run(ctx)
-		retAt.Store(time.Now().UnixNano())
-		resCh <- r
-	}()
-	var res error
 	hungRun := false
-	select {
-	case res = <-resCh:
-	case <-time.After(runTimeout):
-		hungRun = true
+	var res error
+	if pl.cli == "" {
+		go func() {
+			r := e.Run(ctx)
+			retAt.Store(time.Now().UnixNano())
+			resCh <- r
+		}()
+		select {
+		case res = <-resCh:
+		case <-time.After(runTimeout):
+			hungRun = true
+		}
+	} else {
+		// what cli.ReadConfigAndRunEngine does: Engine.Run in a goroutine (runEngine), then awaitPandoraTermination
+		// with the cancel of the run context as gracefulShutdown.  The harness sits between runEngine and the channel
+		// awaitPandoraTermination reads, only to see what Engine.Run returned and when.
+		if pl.cli != "run" {
+			sigAt := pointRef{name: "awaitPandoraTermination.select", n: 1}
+			if pl.sigAt != nil {
+				sigAt = *pl.sigAt
+			}
+			c.hk.sigAt = &sigAt
+			c.hk.onSig = func() { cs.sendSignal(c.hk, pl.cli) }
+			// a point the run never reaches: the signal comes anyway (a blocked run has nothing else to end it)
+			tm := time.AfterFunc(sigFallback, func() { cs.sendSignal(c.hk, pl.cli) })
+			defer tm.Stop()
+		}
+		errs0 := make(chan error)
+		errs := make(chan error)
+		go cliRunEngine(ctx, e, errs0)
+		fwdDone := make(chan struct{})
+		go func() {
+			defer close(fwdDone)
+			r := <-errs0
+			retAt.Store(time.Now().UnixNano())
+			resCh <- r
+			select {
+			case errs <- r:
+			case <-cs.gone: // awaitPandoraTermination ended without reading the result
+			}
+		}()
+		cs.gone = make(chan struct{})
+		go func() {
+			defer close(cs.gone)
+			defer cs.returned() // runs on a normal return and on the Goexit of a Fatal
+			cliAwait(e, func() {
+				cs.add("gs")
+				if cs.signalled() {
+					c.doCancel() // the user's interrupt: the caller's cancel of the property
+				} else {
+					cancel()
+				}
+			}, errs, log)
+		}()
+		select {
+		case <-cs.gone:
+		case <-time.After(runTimeout):
+			cs.add("hang")
+		}
+		select {
+		case res = <-resCh:
+		case <-time.After(200 * time.Millisecond):
+			hungRun = true
+		}
+		go func() { <-fwdDone }()
 	}
 	// what cli.go does on failure: cancel (graceful shutdown), then Engine.Wait
 	cancelled := c.cancelAt.Load()
+	if pl.cli != "" && cancelled != 0 && retAt.Load() != 0 && cancelled > retAt.Load() {
+		cancelled = 0 // the signal came after Engine.Run had returned
+	}
 	cancel()
 	waited := make(chan struct{})
 	go func() { e.Wait(); close(waited) }()
@@ -724,6 +963,10 @@ func runCase(input string) string {
 	}
 	if hungRun {
 		extra++
+	}
+	srvOpen := 0
+	if anyReal {
+		srvOpen = realSettle(400 * time.Millisecond)
 	}
 	after := settleGoroutines(baseline+extra, 1500*time.Millisecond)
 	if after > baseline+extra && !hungRun && waitOK {
@@ -825,6 +1068,10 @@ func runCase(input string) string {
 	}
 	sort.Strings(sup)
 	b.WriteString(" sup=" + joinOrDash(sup))
+	if pl.cli != "" {
+		b.WriteString(" cli=" + joinOrDash(cs.events()))
+		fmt.Fprintf(&b, " csig=%d", b2i(cs.signalled()))
+	}
 	for i, p := range rts {
 		fmt.Fprintf(&b, " p%d.main=%s p%d.aw=%s", i, joinOrDash(mains[i]), i, joinOrDash(aw[i]))
 		p.mu.Lock()
@@ -834,20 +1081,31 @@ func runCase(input string) string {
 		}
 		p.mu.Unlock()
 		sort.Ints(cl)
-		var cs []string
+		var cls []string
 		for _, x := range cl {
-			cs = append(cs, strconv.Itoa(x))
+			cls = append(cls, strconv.Itoa(x))
 		}
 		var es []string
 		p.mu.Lock()
-		for e := range p.errs {
-			es = append(es, e)
+		for en := range p.errs {
+			es = append(es, en)
 		}
 		p.mu.Unlock()
 		sort.Strings(es)
-		fmt.Fprintf(&b, " p%d.guns=%d p%d.closes=%s p%d.errs=%s", i, len(cl), i, joinOrDash(cs), i, joinOrDash(es))
+		fmt.Fprintf(&b, " p%d.guns=%d p%d.closes=%s p%d.errs=%s", i, len(cl), i, joinOrDash(cls), i, joinOrDash(es))
+		if p.spec.rg != "" {
+			// all real-gun pools of a case shoot at the same server: the open connections are reported with each
+			fmt.Fprintf(&b, " p%d.gcl=%d p%d.icl=%d p%d.srvopen=%d", i, b2i(p.gcl), i, b2i(p.icl), i, srvOpen)
+		}
 	}
 	return b.String()
+}
+
+func b2i(b bool) int {
+	if b {
+		return 1
+	}
+	return 0
 }
 
 func joinOrDash(xs []string) string {
@@ -918,71 +1176,94 @@ func (t *tailBuf) panicLine() string {
 	return "no-panic-line"
 }
 
-var sup struct {
-	mu     sync.Mutex
+// one supervised worker process: the plain one (this binary) or the instrumented one (instr.go)
+type workerSup struct {
+	exe    func() (string, string) // path of the worker binary, or "" and why there is none
 	cmd    *exec.Cmd
 	in     io.WriteCloser
 	out    *bufio.Reader
 	errBuf *tailBuf
-	deaths int
 }
+
+var (
+	supMu     sync.Mutex // one case at a time, whichever worker runs it
+	supDeaths int
+	plainSup  = &workerSup{exe: func() (string, string) {
+		exe, err := os.Executable()
+		if err != nil {
+			return "", err.Error()
+		}
+		return exe, ""
+	}}
+	instrSup = &workerSup{exe: instrWorker}
+)
 
 const (
 	maxDeaths    = 6
 	childTimeout = 19 * time.Second // < the framework's per-case timeout (20 s)
 )
 
-func supStart() error {
-	exe, err := os.Executable()
-	if err != nil {
-		return err
+func (w *workerSup) start() string {
+	exe, why := w.exe()
+	if exe == "" {
+		return why
 	}
 	cmd := exec.Command(exe)
 	cmd.Env = append(os.Environ(), "C05_WORKER=1")
 	in, err := cmd.StdinPipe()
 	if err != nil {
-		return err
+		return err.Error()
 	}
 	out, err := cmd.StdoutPipe()
 	if err != nil {
-		return err
+		return err.Error()
 	}
 	eb := &tailBuf{}
 	cmd.Stderr = eb
 	if err := cmd.Start(); err != nil {
-		return err
+		return err.Error()
 	}
-	sup.cmd, sup.in, sup.out, sup.errBuf = cmd, in, bufio.NewReaderSize(out, 1<<16), eb
-	return nil
+	w.cmd, w.in, w.out, w.errBuf = cmd, in, bufio.NewReaderSize(out, 1<<16), eb
+	return ""
 }
 
-func supKill() {
-	if sup.cmd != nil {
-		_ = sup.in.Close()
-		_ = sup.cmd.Process.Kill()
-		_ = sup.cmd.Wait()
-		sup.cmd = nil
+func (w *workerSup) kill() {
+	if w.cmd != nil {
+		_ = w.in.Close()
+		_ = w.cmd.Process.Kill()
+		_ = w.cmd.Wait()
+		w.cmd = nil
 	}
 }
 
 func supervisedRun(input string) string {
-	if _, err := parsePlan(input); err != nil {
+	pl, err := parsePlan(input)
+	if err != nil {
 		return "BADINPUT " + err.Error()
 	}
-	sup.mu.Lock()
-	defer sup.mu.Unlock()
-	if hangs.Load() >= maxHangs || sup.deaths >= maxDeaths || leaks.Load() >= maxLeaks {
+	supMu.Lock()
+	defer supMu.Unlock()
+	if hangs.Load() >= maxHangs || supDeaths >= maxDeaths || leaks.Load() >= maxLeaks {
 		return "SKIPPED-AFTER-HANGS"
 	}
-	if sup.cmd == nil {
-		if err := supStart(); err != nil {
-			return "BADINPUT cannot start worker: " + err.Error()
+	w := plainSup
+	if pl.needsInstr() {
+		w = instrSup
+	}
+	if w.cmd == nil {
+		if why := w.start(); why != "" {
+			if w == instrSup {
+				// the source of the tree under test could not be instrumented or the instrumented build failed: the
+				// Lean driver reports the case as not run (the tree builds, or the check had stopped earlier)
+				return "NOINSTR " + sanitize(why)
+			}
+			return "BADINPUT cannot start worker: " + why
 		}
 	}
-	if _, err := io.WriteString(sup.in, input+"\n"); err != nil {
-		line := sup.errBuf.panicLine()
-		supKill()
-		sup.deaths++
+	if _, err := io.WriteString(w.in, input+"\n"); err != nil {
+		line := w.errBuf.panicLine()
+		w.kill()
+		supDeaths++
 		return "PANIC process died: " + line
 	}
 	type rd struct {
@@ -990,7 +1271,7 @@ func supervisedRun(input string) string {
 		err error
 	}
 	ch := make(chan rd, 1)
-	out := sup.out
+	out := w.out
 	go func() {
 		s, err := out.ReadString('\n')
 		ch <- rd{s, err}
@@ -1000,35 +1281,39 @@ func supervisedRun(input string) string {
 		if r.err != nil {
 			// give the dying process a moment to flush its panic message
 			done := make(chan struct{})
-			go func() { _ = sup.cmd.Wait(); close(done) }()
+			cmd := w.cmd
+			go func() { _ = cmd.Wait(); close(done) }()
 			select {
 			case <-done:
 			case <-time.After(2 * time.Second):
 			}
-			line := sup.errBuf.panicLine()
-			sup.cmd = nil
-			sup.deaths++
+			line := w.errBuf.panicLine()
+			w.cmd = nil
+			supDeaths++
 			return "PANIC process died: " + line
 		}
 		obs := strings.TrimRight(r.s, "\n")
 		if strings.Contains(obs, "res=runhang") || strings.Contains(obs, "wait=hang") {
 			hangs.Add(1)
 			// goroutines of a hung run stay behind: continue in a fresh process
-			supKill()
-		} else if !strings.Contains(obs, " leak=0 ") {
+			w.kill()
+		} else if strings.HasPrefix(obs, "res=") && !strings.Contains(obs, " leak=0 ") {
 			// leaked goroutines: every such case costs the full settle time; a few establish the violation
 			leaks.Add(1)
-			supKill()
+			w.kill()
 		}
 		return obs
 	case <-time.After(childTimeout):
-		supKill()
+		w.kill()
 		hangs.Add(1)
 		return "HANG worker did not answer"
 	}
 }
 
+var curHook atomic.Pointer[hookRt]
+
 func workerLoop() {
+	verifhook.Yield = func(pt string) { curHook.Load().at(pt) }
 	in := bufio.NewReaderSize(os.Stdin, 1<<16)
 	out := bufio.NewWriter(os.Stdout)
 	for {
@@ -1057,7 +1342,18 @@ func main() {
 		workerLoop()
 		return
 	}
-	defer supKill()
+	if os.Getenv("C05_POINTS") != "" { // debugging aid: list the scheduling points of the tree
+		drv.RepoDir = os.Getenv("C05_POINTS")
+		pts, e := instrScan()
+		fmt.Println(strings.Join(pts, "\n"))
+		if e != "" {
+			fmt.Println("error:", e)
+		}
+		return
+	}
+	defer removeInstrumentedWorker()
+	defer instrSup.kill()
+	defer plainSup.kill()
 	drv.Main(&drv.Prop{
 		ID:      "C05",
 		Gen:     gen,
